@@ -44,12 +44,19 @@ theorem jump_targets_nested_top (ss : List CStmt) (o : Nat) (h : CStmt.StraightL
   · exact h1
   · cases hd
 
-/-- non-vacuity: `repeat while c / if d then exit repeat / s / end repeat ; t` — two forward jumps out of the loop, both on the
-    boundary after the back jump -/
-example :
-    let c := [Instr.op2 0x4c 0]; let d := [Instr.op2 0x4c 6]; let s := [Instr.op2 0x41 1, .op2 0x42 1, .op2 0x57 0]
-    let prog := [CStmt.loop [] c [] [.ifThen d [.exitRepeat] [], .code s] [] [], .code s]
-    CStmt.StraightL prog ∧ fwdJumps (layoutStmts none prog) 0 = [(2, 21), (7, 13), (10, 21)] ∧ bndStmts 0 prog = [0, 0, 5, 10, 13, 13, 19, 21, 21, 27] := by
-  decide +kernel
+/-- `repeat while c / if d then exit repeat end if / s / end repeat ; s` as a control skeleton -/
+def exampleProg : List CStmt :=
+  [.loop [] [.op2 0x4c 0] [] [.ifThen [.op2 0x4c 6] [.exitRepeat] [], .code [.op2 0x41 1, .op2 0x42 1, .op2 0x57 0]] [] [],
+   .code [.op2 0x41 1, .op2 0x42 1, .op2 0x57 0]]
+
+/-- non-vacuity: the hypothesis holds for it … -/
+example : CStmt.StraightL exampleProg := by
+  simp [exampleProg, CStmt.StraightL, CStmt.Straight, NoJump, Instr.isJump]
+
+/-- … it has three forward jumps: the loop condition (2 → 21), the inner `if` (7 → 13) and the exit repeat (10 → 21); 21 is the
+    address after the back jump (19 → 0), and all targets are statement boundaries -/
+example : fwdJumps (layoutStmts none exampleProg) 0 = [(2, 21), (7, 13), (10, 21)]
+    ∧ backJumps (layoutStmts none exampleProg) 0 = [(19, 0)]
+    ∧ bndStmts 0 exampleProg = [0, 0, 5, 10, 13, 13, 19, 21, 21, 27] := by decide +kernel
 
 end DrxProps.C03
